@@ -183,6 +183,10 @@ func (c Command) ForEach(ctx context.Context, payload xml.TokenReader, s *xmpp.S
 		}
 		c, payload, err = f(resp, respPayload)
 		if err != nil {
+			// The session cannot read anything else until the response has been
+			// closed.
+			/* #nosec */
+			respPayload.Close()
 			return err
 		}
 		err = respPayload.Close()
